@@ -34,7 +34,7 @@ func init() {
 		run:       runC07,
 		decided: "R1 the old instance is stopped only after the new one started successfully, and the success return follows that stop; R2 on reload a listener is opened with Listen/ListenPacket only when no inherited descriptor produced one, inherited ones come from the old listener's File(); " +
 			"R3 servers stop through http.Server.Shutdown under the connection-drain timeout (never Close), and Instance.Stop visits every server (no early exit); R4 every wait-group Add is matched by the same number of Done calls on all paths; " +
-			"R5 in every evaluated trace of startWithListenerFds (oracle callbacks, every failing step) the servers start after the last startup callback and not at all when one fails. Since round 4: R1 from the lifecycle traces: the old servers are stopped only after the new instance started, never when starting failed. R2 as a table of startServers: a server inherits the socket registered under its own address and nothing else, and calls Listen exactly when nothing was inherited. Since round 7: R4 Instance.Stop holds the wait group while it stops servers; R6 an exhausted configuration pipe is no input (not an empty Casketfile). Since round 8: R7 the parser keeps no package-level state between parses (a reload reads what is on disk now).",
+			"R5 in every evaluated trace of startWithListenerFds (oracle callbacks, every failing step) the servers start after the last startup callback and not at all when one fails. Since round 4: R1 from the lifecycle traces: the old servers are stopped only after the new instance started, never when starting failed. R2 as a table of startServers: a server inherits the socket registered under its own address and nothing else, and calls Listen exactly when nothing was inherited. Since round 7: R4 Instance.Stop holds the wait group while it stops servers; R6 an exhausted configuration pipe is no input (not an empty Casketfile). Since round 8: R7 the parser keeps no package-level state between parses (a reload reads what is on disk now). Since round 10: R8 the address a socket is handed over under is fixed at construction — every field GracefulServer.Address() reads is stored only into a value under construction, never through a pointer to a live server.",
 		notDecided: "every interleaving claim: that each request gets a complete response from old or new, and 'new after Restart returns' under concurrent load.",
 	})
 }
@@ -978,6 +978,7 @@ func mergeEdges(a, b map[edge]bool) map[edge]bool {
 func runC07(r *Report, p *Program) {
 	h := H{r, p}
 	defer c07R6(h)
+	defer c07R8(h)
 	defer parserHasNoMemory(h, "R7") // a reload parses again in the same process
 	r.Rule("R1", "start-new-before-stop-old (E10 lifecycle traces): in every evaluated Restart — each restart callback, the start of the new instance, the stop of the old servers and each old shutdown callback failing in turn — the old servers are stopped only after the new instance started successfully, never when starting it failed, and every Restart that reports success has stopped them", 2)
 	rs := h.fn("R1", "", "(*Instance).Restart")
